@@ -435,9 +435,18 @@ func runC04(c *Ctx, r *Rec) {
 			}
 			return true
 		})
+		chanVar := types.Object(nil)
 		if id, ok := ast.Unparen(chanExpr).(*ast.Ident); ok && chanExpr != nil {
+			chanVar = info.Uses[id]
 			if init := initOf(info, fd, id); init != nil {
 				chanExpr = init
+			}
+		}
+		// the capacity read back from the channel itself agrees with it by construction
+		if capExpr != nil && chanVar != nil {
+			if call, ok := stripConversions(info, capExpr).(*ast.CallExpr); ok && isBuiltinCall(info, call, "cap") && len(call.Args) == 1 && identObj(info, call.Args[0]) == chanVar {
+				r.ok("D5-capacity-agreement", construct, c.pos(fd.Pos()), "the capacity field is the cap() of the channel the queue is born with")
+				continue
 			}
 		}
 		var sizeArg ast.Expr
